@@ -1,7 +1,7 @@
 (* Props/C09.v — calibration statistics are exact, order-faithful, resumable. *)
 From VF Require Import Base.Prelude Gen.Enums Gen.Configs Gen.Scopes
      Model.Recipe Model.Check Model.Graph Model.Plan Model.Calib
-     Proofs.ListFacts Proofs.CalibProofs Proofs.ResumeProofs.
+     Proofs.ListFacts Proofs.CalibProofs Proofs.ResumeProofs Proofs.CalibOnly.
 
 (* For every model, recipe, matcher, sample index and incoming store: one
    calibration sample changes the entry of a tensor either not at all or by
@@ -72,6 +72,34 @@ Theorem C09_calibrate_is_run_samples :
         (map (fun k => (Z.to_nat (k + 1), k)) (map Z.of_nat (seq 0 (Z.to_nat n)))) [].
 Proof. exact calibrate_is_run_samples. Qed.
 Print Assumptions C09_calibrate_is_run_samples.
+
+(* Only what the recipe selects is recorded: every key of the result of
+   Quantizer.calibrate is a name of the previous result passed in, or the name
+   of a PRESENT operand (index <> -1, resolved in the operator's own tensor
+   table) of an operator the recipe resolves to a quantizing algorithm — a
+   real operator of some subgraph (initialisation pass) or a real / virtual
+   INPUT / OUTPUT operator of the calibrated signature's subgraph.  No entry
+   for an absent optional operand, for tensors of unselected operators, or
+   for any other name; for every model, recipe state, matcher, signature,
+   previous result and number of samples. *)
+Theorem C09_statistics_only_for_operands_of_selected_operators :
+  forall matches rules bufs scope_id m adjy sig prev nsamples s n,
+    calibrate matches rules bufs scope_id m adjy sig prev nsamples = Ok s -> In n (map fst s) ->
+    (exists ns, prev = Some ns /\ In n ns) \/
+    selected_operand matches rules scope_id m n.
+Proof. exact calibrate_only. Qed.
+Print Assumptions C09_statistics_only_for_operands_of_selected_operators.
+
+(* what "operand" means there *)
+Theorem C09_recorded_operands_are_present_operands :
+  forall ts op n, operand_name ts op n ->
+    exists x t, In x (co_ins op ++ co_outs op) /\ x <> -1 /\ py_index ts x = Ok t /\ n = tname t.
+Proof.
+  intros ts op n (x & t & Hin & Hne & Ht & Hn). exists x, t. split; [|auto].
+  apply in_app_iff in Hin. apply in_app_iff. unfold present in Hin.
+  destruct Hin as [H|H]; apply filter_In in H; destruct H as [H _]; [left|right]; exact H.
+Qed.
+Print Assumptions C09_recorded_operands_are_present_operands.
 
 Example C09_nonvacuous :
   step_of 1 (7, []) (Some (QSample (7, []) 0)) = Some (QUpd (QSample (7, []) 0) (QSample (7, []) 1)) /\
